@@ -85,3 +85,8 @@ Theorem C10_region_to_container_reported_volume : forall cf p r c q p' c' pr,
   get_volume cf c' pr + plate_get_volume cf p' pr == get_volume cf c pr + plate_get_volume cf p pr.
 Proof. exact p_to_c_reported_volume. Qed.
 Print Assumptions C10_region_to_container_reported_volume.
+Theorem C10_plate_to_plate_reported_volume : forall cf ps rs pd rd q ps' pd' pr,
+  PInv cf ps -> PInv cf pd -> p_to_p cf ps rs pd rd q = Ok (ps', pd') ->
+  plate_get_volume cf ps' pr + plate_get_volume cf pd' pr == plate_get_volume cf ps pr + plate_get_volume cf pd pr.
+Proof. exact p_to_p_reported_volume. Qed.
+Print Assumptions C10_plate_to_plate_reported_volume.
